@@ -2,10 +2,10 @@
 # Builds the framework offline from files on disk. Run once after a fresh restore.
 set -e
 cd "$(dirname "$0")"
-export GOFLAGS=-mod=mod GOPROXY=off GOSUMDB=off GOTOOLCHAIN=local
+export GOFLAGS=-mod=mod GOPROXY=off GOSUMDB=off GOTOOLCHAIN=local GOCACHE="${VERIF_GOCACHE:-/var/tmp/verif-gocache}"
 mkdir -p bin evidence replays
 go build -o bin/vdriver ./cmd/vdriver
-go vet ./... >/dev/null
+go vet ./cmd/... ./internal/... ./subjectlib/... ./props/... >/dev/null
 # warm the build cache for the property test binaries
 for d in props/*/; do
   go test -c -o /dev/null "./$d" >/dev/null
